@@ -37,6 +37,19 @@ func (r *Run) intrinsic1(name string, fn *ssa.Function) externalFn {
 			return callSSA(fr.i, fr.caller, 0, target, args, nil)
 		}
 	}
+	if (name == "github.com/moorara/algo/sort.Shuffle" || strings.HasPrefix(name, "github.com/moorara/algo/sort.Shuffle[")) && len(r.cfg.MapOrder) > 0 {
+		r.cfg.usedStub("github.com/moorara/algo/sort.Shuffle (identity; a free permutation where the configuration says so)")
+		return func(fr *frame, args []value) value {
+			if sl, ok := args[0].([]value); ok {
+				r.librarySortShuffle(fr, sl)
+			}
+			return nil
+		}
+	}
+	if f, ok := stdFns[name]; ok && name == "(*math/rand.Rand).Shuffle" && len(r.cfg.MapOrder) > 0 {
+		r.cfg.usedStub(name + " (identity; a free permutation where the configuration says so)")
+		return func(fr *frame, args []value) value { return f(r, fr, args) }
+	}
 	if r.cfg.opaque[name] || (fn.Pkg != nil && r.cfg.opaquePkg[fn.Pkg.Pkg.Path()] && fn.Name() != "init") {
 		r.cfg.usedStub(name + " (opaque: zero result)")
 		return func(fr *frame, args []value) value {
@@ -274,6 +287,7 @@ func init() {
 			}
 			return nil
 		},
+		"FreeShuffle": func(r *Run, fr *frame, a []value) value { return nil },
 		"FreeMapOrder": func(r *Run, fr *frame, a []value) value {
 			r.freeMaps = a[0].(bool)
 			return nil
@@ -329,6 +343,18 @@ func init() {
 				r.pools = map[*value][]value{}
 			}
 			r.pools[p] = append(r.pools[p], a[1])
+			return nil
+		},
+		"(*math/rand.Rand).Shuffle": func(r *Run, fr *frame, a []value) value {
+			r.libraryShuffle(fr, int(asInt64(a[1])), a[2])
+			return nil
+		},
+		"(*sync.WaitGroup).Add":  noop,
+		"(*sync.WaitGroup).Done": noop,
+		"(*sync.WaitGroup).Wait": func(r *Run, fr *frame, a []value) value {
+			if r.threads != nil {
+				r.threads.wait(r, fr)
+			}
 			return nil
 		},
 		"(*sync.Once).Do": func(r *Run, fr *frame, a []value) value {
